@@ -196,8 +196,18 @@ def _structure(ctx):
     sp.need(['_R_data = json.loads(_R_text)'], 'text input is decoded with json.loads', 'a JSON text is not decoded')
     sp.need(['_R_data = [_R_data]'], 'a single grid object is normalised to a one-element list',
             'a single grid object is iterated key by key')
-    sp.need(['_R_grids = list(map(_R_parse, _R_data))', '_R_grids = [_R_parse(_R_g) for _R_g in _R_data]'],
-            'every grid of the document is parsed, in order', 'only some grids of an array are parsed')
+    from . import _parse
+    try:
+        r = _parse.result_shaping(m)
+        if r['multi'] == {'ALL'} and r['single_nonempty'] <= {'FIRST', 'FIRST1'} and r['single_nonempty']:
+            ctx.ob('C05.D2', 'every grid of the document is parsed, in order (single=False), the first one for single=True',
+                   True, '%s:%d' % (FPp, pp.lineno))
+        else:
+            ctx.violation('C05.D2', '%s::parse' % FPp, 'result shaping %s' % {k: sorted(r[k]) for k in ('single_nonempty', 'multi')},
+                          'parse(\'[{grid1}, {grid2}]\', mode=MODE_JSON, single=False) does not return both grids in order',
+                          'only some grids of an array are parsed / returned', file=FPp, line=pp.lineno, engine='E6')
+    except (AnalysisError, Unsupported) as e:
+        ctx.error('C05.D2', 'result shaping: %s' % e)
     t = norm(pp)
     if 'if isinstance(grid_data, dict):' in t or any(isinstance(n, ast.If) and 'dict' in norm(n.test) and 'isinstance' in norm(n.test)
                                                      for n in walk_no_nested(pp)):
